@@ -81,11 +81,21 @@ def outS : Out → String
     if m.isEmpty then "selected -" else
       "selected " ++ ",".intercalate ((sortKV m).map (fun p => ascii p.1 ++ "=" ++ verS p.2))
 
+/-- `<id>=<version>` (both tokens; a raw token contains no `=`) -/
+def item? (w : String) : Option (Str × Str) :=
+  match w.splitOn "=" with
+  | [i, v] => do some (← tok i, ← tok v)
+  | _ => none
+
 def parseOp (ws : List String) : Option Op :=
   match ws with
   | ["flags", o, d, p] => do some (.setFlags (← bool? o) (← bool? d) (← bool? p))
   | ["add", id, ver, a, c, p, ix] => do
     some (.add (← tok id) (← tok ver) (← bool? a) (← bool? c) (← bool? p) (← idx? ix))
+  | ["addv", id, ver, a, c, p] => do
+    some (.addVersion (← tok id) (← tok ver) (← bool? a) (← bool? c) (← bool? p))
+  | "addmany" :: a :: c :: p :: ix :: items => do
+    some (.addMany (← items.mapM item?) (← bool? a) (← bool? c) (← bool? p) (← idx? ix))
   | ["touch", id, ver, k] => do some (.touch (← tok id) (← tok ver) (← k.toNat?))
   | ["select"] => some .select
   | ["getfile", id] => do some (.getFile (← tok id))
